@@ -13,3 +13,12 @@ open RV.C05
 #print axioms utf8_encode_decode
 #print axioms input_source_equiv
 #print axioms bom_routes_differed_before_F14
+#print axioms ntparser_refines_reference
+#print axioms nqparser_refines_reference
+#print axioms ntparser_lenient_forms
+#print axioms ntparser_error_kinds
+#print axioms ntparser_doc_refines_reference
+#print axioms nqparser_doc_refines_reference
+#print axioms nt_write_parse_roundtrip
+#print axioms ntparser_doc_lenient
+#print axioms ntparser_iriref_token
